@@ -5,7 +5,8 @@ and an arbitrary list `changed` of sub-paths it returns True exactly when every 
 through a listed sub-path is equal (Comparator.is_equal) on the old and the new sub-object, and
 False when `changed` is None — so replacing a sub-object fires the dependent method iff some
 listed leaf differs.  That `changed` covers every dependency of the group (`_watch_group`) and the
-re-binding of dynamic watchers (`_update_deps`) are covered by the bounded layer only."""
+re-binding of dynamic watchers are covered by the bounded layer; the RELEASE of the old dynamic
+watchers in `_update_deps` is under a block contract (end of this file)."""
 import z3
 
 from pyvc import spec as S
@@ -94,3 +95,249 @@ ASSUMPTIONS = [
     "callee contracts: _getattrr(obj, path, None) is a pure lookup reach(obj, path); Comparator.is_equal is a pure predicate (its soundness/completeness: C03 bounded layer)",
     "_skip_event is verified for one event (the callers pass one event per sub-object change) and what='value'",
 ]
+
+
+# ---------------------------------------------------------------------------------------------
+# Block contract: one iteration of the loop of Parameters._update_deps (re-binding of the dynamic
+# watchers of ONE dependent method when the attribute `attribute` of the object was assigned)
+# ---------------------------------------------------------------------------------------------
+UPDATE_DEPS_REPLAY = '''import sys, os
+sys.path.insert(0, os.environ.get('PYVC_REPO', '/repo'))
+import param
+bad = []
+class L(param.Parameterized):
+    x = param.Number(0)
+    y = param.Number(0)
+class N(param.Parameterized):
+    z = param.Number(0)          # lacks x and y
+def watchers_on(o):
+    return sum(len(ws) for attrs in o._param__private.watchers.values() for ws in attrs.values())
+for deps in (('a.x',), ('a.x', 'a.y')):
+    calls = []
+    class T(param.Parameterized):
+        a = param.ClassSelector(class_=param.Parameterized, allow_None=True)
+        @param.depends(*deps, watch=True)
+        def m(self):
+            calls.append(1)
+    old = L(); t = T(a=old)
+    t.a = L(x=1)                                   # replace: the old object must be released
+    if watchers_on(old):
+        bad.append('deps=%r: after t.a = <new>, the replaced object still holds %d watcher(s)' % (deps, watchers_on(old)))
+    del calls[:]; old.x = 7
+    if calls:
+        bad.append('deps=%r: assigning to the replaced object invoked the method' % (deps,))
+    cur = t.a
+    try:
+        t.a = N()                                  # cannot be resolved: raises
+    except AttributeError:
+        pass
+    if watchers_on(cur):
+        bad.append('deps=%r: after a failed attach the detached object still holds %d watcher(s)' % (deps, watchers_on(cur)))
+    del calls[:]; cur.x = 9
+    if calls:
+        bad.append('deps=%r: assigning to the object detached by a failed attach invoked the method' % (deps,))
+if bad:
+    print('REPRODUCED: C07 a detached object keeps a watcher installed on the parent\\'s behalf:'.replace("\\\\'", "'"))
+    for b in bad:
+        print('  ', b)
+    sys.exit(1)
+print('NOT-REPRODUCED'); sys.exit(0)
+'''
+
+
+def update_deps_iteration_contract():
+    """Body of `for method, queued, on_init, constant, dynamic in …_depends['watch']:` in
+    `Parameters._update_deps(attribute)` (init=False), for an ARBITRARY table entry and an ARBITRARY
+    list of watchers recorded for that method: either the entry is not concerned (nothing is unwatched,
+    resolved or installed), or EVERY previously recorded dynamic watcher of the method is unwatched on
+    the very object it was installed on, and forgotten, BEFORE anything is resolved — so also when the
+    resolution of the new dependencies raises — and each new group gets exactly one watcher, recorded
+    for the method."""
+    import ast as _ast
+    holder = {}
+    QUAL = "Parameters._update_deps"
+    idF = z3.Function("id_of", vm.V, vm.V)
+    splitF = z3.Function("str_split", vm.V, vm.V, vm.V)
+    resolvedF = z3.Function("resolved_deps_of", vm.V, vm.V)
+
+    def configure(I):
+        I.sym_fields = {"inst", "cls", "param", "spec", "what", "name"}
+
+        def vmethod(I, st, name, selfv, args, kwargs, ctx):
+            if name == "unwatch":
+                w = I.term(args[0])
+                st.ghost["unwatched"] = z3.Store(st.ghost["unwatched"], w, True)
+                st.ghost["unwatch_on"] = st.ghost.get("unwatch_on", []) + [(I.term(selfv), w)]
+                st.ghost["events"] = st.ghost.get("events", []) + ["unwatch"]
+                obs = ctx.get("obligations")
+                if obs is not None:
+                    from pyvc.objects import sym_field
+                    Fi, Fc, Fp = sym_field(I, st, "inst"), sym_field(I, st, "cls"), sym_field(I, st, "param")
+                    owner = z3.If(z3.Select(Fi, w) == I.U.NONE, z3.Select(Fc, w), z3.Select(Fi, w))
+                    obs.append(("a watcher is unwatched on the object it was installed on (its instance, else its class)",
+                                st.fork(), I.term(selfv) == z3.Select(Fp, owner)))
+                return [(st, Conc(None))]
+            if name == "split" and isinstance(selfv, Sym):
+                r = splitF(I.term(selfv), I.term(args[0]))
+                I.U.axioms += [vm.ty(r) == vm.TAG["list"], vm.tlen(r) >= 1]
+                I.U.well_typed(r)
+                return [(st, Sym(r))]
+            if name == "append" and isinstance(selfv, Sym):
+                st.ghost["appended_to_value"] = st.ghost.get("appended_to_value", []) + [(I.term(selfv), args[0])]
+                return [(st, Conc(None))]
+            return None
+        I.lib["$value_method"] = vmethod
+
+        def h_any(I, st, fv, args, kwargs, ctx):
+            # whether some dynamic dependency of the entry starts at `attribute`: left open
+            return [(st, BoolV(I.U.fresh_bool("entry_is_concerned")))]
+        I.lib["any"] = h_any
+
+        def h_id(I, st, fv, args, kwargs, ctx):
+            r = idF(I.term(args[0]))
+            I.U.axioms.append(vm.ty(r) == vm.TAG["int"])
+            I.U.well_typed(r)
+            return [(st, Sym(r))]
+        I.lib["id"] = h_id
+
+        def new_defaultdict(I, st, fv, args, kwargs, ctx):
+            r = I.alloc_dict(st)
+            st.heap[r.oid].fields["$default_list"] = True
+            return [(st, r)]
+        I.lib["new:defaultdict"] = new_defaultdict
+
+        def resolve(I, st, fv, args, kwargs, ctx):
+            st.ghost["events"] = st.ghost.get("events", []) + ["resolve"]
+            r = I.U.fresh("resolved_deps")
+            I.U.axioms += [vm.ty(r) == vm.TAG["list"], vm.tlen(r) >= 0]
+            I.U.well_typed(r)
+            q = st.fork()
+            return [(st, Sym(r)), (q, Raise("AttributeError", origin="_resolve_mcs_deps"))]
+        I.contracts["_resolve_mcs_deps"] = resolve
+
+        def watch_group(I, st, fv, args, kwargs, ctx):
+            w = Sym(I.U.fresh("new_watcher"))
+            st.ghost["events"] = st.ghost.get("events", []) + ["install"]
+            st.ghost["installed"] = st.ghost.get("installed", []) + [(w, list(args))]
+            return [(st, w)]
+        I.contracts["Parameters._watch_group"] = watch_group
+
+    def setup(I, st):
+        U = I.U
+        obj = I.alloc_obj(st, "Parameterized", lazy=True, label="obj")
+        priv = I.alloc_obj(st, "_InstancePrivate", lazy=True, label="obj._param__private")
+        DW = I.alloc_dict(st, keys=U.fresh_seq("methods_with_dynamic_watchers"), vals=z3.Const("dynamic_watchers", z3.ArraySort(vm.V, vm.V)))
+        st.heap[DW.oid].fields["$default_list"] = True
+        st.heap[priv.oid].fields["dynamic_watchers"] = DW
+        st.heap[obj.oid].fields["_param__private"] = priv
+        self_ = I.alloc_obj(st, "Parameters", lazy=False, label="self_")
+        st.heap[self_.oid].fields.update({"self": obj, "cls": ClsV("Parameterized")})
+        method = U.fresh("method")
+        st.pc.append(vm.ty(method) == vm.TAG["str"])
+        dynamic = U.fresh("dynamic")
+        st.pc += [vm.ty(dynamic) == vm.TAG["list"], vm.tlen(dynamic) >= 0]
+        U.well_typed(dynamic)
+        hd = st.heap[DW.oid]
+        old_list = z3.Select(hd.vals, method)
+        st.pc += [z3.Implies(z3.Contains(hd.keys, z3.Unit(method)), z3.And(vm.ty(old_list) == vm.TAG["list"], vm.tlen(old_list) >= 0))]
+        U.well_typed(old_list)
+        w0 = U.fresh("some_recorded_watcher")
+        holder.update({"w0": w0, "old_list": old_list, "method": method, "DW": DW, "had": z3.Contains(hd.keys, z3.Unit(method))})
+        holder["notw0"] = S.fold(I, "not_the_recorded_watcher", lambda x: x != w0)
+        st.ghost["unwatched"] = z3.K(vm.V, False)
+        env = {"self_": self_, "obj": obj, "method": Sym(method), "queued": Sym(U.fresh("queued")), "on_init": Sym(U.fresh("on_init")),
+               "constant": Sym(U.fresh("constant")), "dynamic": Sym(dynamic), "attribute": Sym(U.fresh("attribute")),
+               "init": Conc(False), "init_methods": I.make_list(st, [])}
+        st.pc.append(I.term(env["attribute"]) != U.NONE)
+        return {"env": env, "DW": DW, "symbols": {}}
+
+    def runner(I, st, info, ctx):
+        module, cname, fd = I.src.locate("%s:%s" % (MOD, QUAL))
+        loop = [x for x in fd.body if isinstance(x, _ast.For) and "_depends['watch']" in _ast.unparse(x.iter)]
+        if len(loop) != 1:
+            raise OutOfReach("the loop over the class dependency table was not found in _update_deps")
+        holder["info"] = info
+        st.env = dict(info["env"])
+        c = dict(ctx)
+        c.update({"module": module, "owner": cname, "qual": QUAL, "fnode": fd, "selfname": "self_"})
+        out = []
+        for (q, oc) in I.exec_block(loop[0].body, st, c):
+            if oc is None or oc[0] == "continue":
+                out.append((q, Conc(None if oc is None else "continue")))
+            elif oc[0] == "raise":
+                out.append((q, oc[1]))
+            else:
+                raise OutOfReach("unexpected exit of the loop body: %r" % (oc[0],))
+        return out
+
+    def recorded(I, n):
+        """w0 is among the first n watchers recorded for the method before the call"""
+        return z3.And(holder["had"], z3.Not(holder["notw0"].tfn(holder["old_list"], n)))
+
+    def inv_unwatch(I, st, pre):
+        return z3.Implies(z3.And(holder["had"], z3.Not(holder["notw0"].tfn(pre.t, pre.n))), z3.Select(st.ghost["unwatched"], holder["w0"]))
+
+    def havoc_unwatch(I, st):
+        st.ghost["unwatched"] = z3.Const("unwatched!%d" % I.new_oid(), z3.ArraySort(vm.V, z3.BoolSort()))
+        st.ghost["unwatch_on"] = []
+
+    def inv_true(I, st, pre):
+        return z3.BoolVal(True)
+
+    def havoc_grouped(I, st):
+        g = st.env.get("grouped")
+        if isinstance(g, Ref):
+            h = st.heap[g.oid]
+            h.keys = I.U.fresh_seq("group_keys")
+            h.vals = z3.Const("groups!%d" % I.new_oid(), z3.ArraySort(vm.V, vm.V))
+            h.ckeys = None
+            h.fields.pop("$entries", None)
+            for f in [f for f in h.fields if isinstance(f, tuple)]:
+                h.fields.pop(f)
+
+    def havoc_install(I, st):
+        h = st.heap[holder["DW"].oid]
+        h.keys = I.U.fresh_seq("methods_with_dynamic_watchers")
+        h.vals = z3.Const("dynamic_watchers!%d" % I.new_oid(), z3.ArraySort(vm.V, vm.V))
+        st.ghost["installed"] = []
+
+    def post(I, info, st, oc):
+        U = I.U
+        w0 = holder["w0"]
+        ev = st.ghost.get("events", [])
+        was_recorded = recorded(I, vm.tlen(holder["old_list"]))
+        untouched = ("unwatch" not in ev and "resolve" not in ev and "install" not in ev)
+        out = []
+        if isinstance(oc, Raise):
+            out.append(("only the resolution of the new dependencies may raise", z3.BoolVal(oc.origin == "_resolve_mcs_deps")))
+        concerned = not (isinstance(oc, Conc) and oc.py == "continue")
+        if not concerned:
+            out.append(("an entry that is not concerned is left alone (nothing unwatched, resolved or installed)", z3.BoolVal(untouched)))
+            return out
+        out.append(("every dynamic watcher recorded for the method is unwatched, also when the resolution of the new dependencies raises",
+                    z3.Implies(was_recorded, z3.Select(st.ghost["unwatched"], w0))))
+        if isinstance(oc, Raise):
+            out.append(("when the resolution fails nothing stays recorded for the method",
+                        z3.Not(z3.Contains(st.heap[holder["DW"].oid].keys, z3.Unit(holder["method"])))))
+        first_other = [i for i, e in enumerate(ev) if e in ("resolve", "install")]
+        last_unwatch = [i for i, e in enumerate(ev) if e == "unwatch"]
+        out.append(("the old watchers are released before anything is resolved or installed",
+                    z3.BoolVal(not first_other or not last_unwatch or max(last_unwatch) < min(first_other))))
+        return out
+    loops = {(QUAL, "dynamic"): LoopSpec("dynamic", inv=inv_true, heap=havoc_grouped, name="each-dynamic-dependency"),
+             (QUAL, "_resolve_mcs_deps"): LoopSpec("_resolve_mcs_deps", inv=inv_true, heap=havoc_grouped, name="each-resolved-dependency"),
+             (QUAL, "grouped.values()"): LoopSpec("grouped.values()", inv=inv_true, heap=havoc_install, name="one-watcher-per-group"),
+             (QUAL, "dynamic_watchers.pop"): LoopSpec("dynamic_watchers.pop", inv=inv_unwatch, heap=havoc_unwatch, name="release-every-old-dynamic-watcher")}
+    c = FunctionContract("%s:%s" % (MOD, QUAL), PROP, setup, post, configure=configure, loops=loops,
+                         name="Parameters._update_deps[one table entry, arbitrary recorded watchers]")
+    c.runner = runner
+    c.static_replay = UPDATE_DEPS_REPLAY
+    c.static_witness = "replace / failed attach of a sub-object a method depends on through 'a.x' (and 'a.y')"
+    return c
+
+
+_c07_base = contracts
+
+
+def contracts():
+    return _c07_base() + [update_deps_iteration_contract()]
